@@ -1,65 +1,426 @@
 """C27 — integer rounding is exact."""
+import glob
+import math
+import os
+from fractions import Fraction
+
 import vlib
 import numgen
 
 META = dict(
     title="Integer rounding is exact for every integer input",
     category="proof",
-    technique="Coq proof (Euclidean div/mod, bound tightening, gcd normalisation) + exact correspondence of the extracted model with ArithLogic through a C++ harness",
-    level_text="Theorems in Properties_C27.v hold for all integers (unbounded Z, either divisor sign); the Gallina functions "
-               "proved correct are extracted and compared exactly with the working tree's ArithLogic::mkIntDiv/mkMod on "
-               "boundary-aimed and random operands on every run.",
-    level_note="Trusted: Coq kernel, extraction (ExtrOcamlBasic, ExtrOcamlString; Z stays the Coq datatype), ocaml/bits.ml "
-               "decimal conversion, harness/h_divmod.cc. Modelled rather than verified: the C++ itself; FastRational "
-               "division/floor/ceil are taken as exact here (that is C15).",
+    technique="Coq proof (Euclidean div/mod and its elimination definitions, integer bound tightening, lcm/gcd normalisation of "
+              "(in)equalities, difference-constraint negation, SafeInt arithmetic, conversion of difference constants) + exact "
+              "correspondence of the extracted model with ArithLogic / LASolver / SafeInt / Converter<SafeInt> / DivModRewriter "
+              "through C++ harnesses + end-to-end QF_IDL scripts predicted by the model",
+    level_text="Theorems in Properties_C27.v hold for all integers / rationals (unbounded Z and Q, either divisor sign, any number "
+               "of summands). The Gallina functions they are about are extracted and compared exactly, on every run, with the "
+               "working tree: mkIntDiv/mkMod folding, the formula DivModRewriter produces (evaluated), "
+               "LASolver::getBoundsValueForIntVar and the bounds LASolver::addBound stores, the atoms ArithLogic::mkLeq/mkEq "
+               "build from integer sums, SafeInt +/-, Converter<SafeInt>::negate/getValue, and the answers of the opensmt "
+               "binary on two-constraint QF_IDL scripts. The conversion of difference-logic constants through double is "
+               "refuted (dl_conv_refuted, dl_conv_unsound_refuted) and reproduced on the implementation as a known finding.",
+    level_note="Trusted: Coq kernel, extraction (ExtrOcamlBasic, ExtrOcamlString; Z/positive/Q stay the Coq datatypes), "
+               "ocaml/bits.ml decimal conversion and the drivers' parsing/printing, the C++ harnesses (which read private "
+               "members of LASolver via '#define private public'). Modelled rather than verified: the C++ itself; FastRational "
+               "+,*,/,floor,ceil,gcd,lcm are taken as exact here (that is C15; gcd/lcm are used on non-negative operands only). "
+               "The sign choice of normalised equalities depends on term ids and is a parameter of the model (the theorem "
+               "covers both values). mpq_get_d is modelled as truncation to 53 bits; conversions outside [-2^63,2^63) are "
+               "undefined behaviour in the C++ and not compared.",
     design_ref="DESIGN.md §7 C27, design/C27.md",
     trusted_base=["Coq 8.16.1 kernel", "extraction: Require Import ExtrOcamlBasic ExtrOcamlString; no Extract Constant / Extract Inductive of our own",
-                  "ocaml/divmod_driver.ml + ocaml/bits.ml (decimal <-> positive)", "harness/h_divmod.cc linked against the working-tree libopensmt.a"],
-    assumptions=["FastRational arithmetic used inside the folding is exact (property C15)"],
-    rule="operand pairs (n,d): all pairs from the boundary set {0,±1,±2,±3,2^31±1,2^32±1,2^53±1,2^63±1,2^64±1,10^20,10^40+7,...} "
-         "restricted by tier, plus PRNG-derived pairs aimed at those boundaries; a case is non-trivial when d is not in {0,1,-1}; "
-         "distinct = distinct (n,d)",
+                  "ocaml/divmod_driver.ml, ocaml/intarith_driver.ml + ocaml/bits.ml (decimal <-> positive, p/q parsing)",
+                  "harness/h_divmod.cc, harness/h_intarith.cc linked against the working-tree libopensmt.a (private members opened by macro)",
+                  "python fractions.Fraction for the property-level judgement of a disagreement"],
+    assumptions=["FastRational arithmetic used inside these functions is exact (property C15)"],
+    rule="div/mod: all pairs from the boundary set {0,±1,±2,±3,2^31±1,2^32±1,2^53±1,2^63±1,2^64±1,10^20,10^40+7,...} restricted by "
+         "tier plus PRNG pairs aimed at those boundaries (non-trivial: d not in {0,1,-1}); div/mod definitions: (n,d) so generated "
+         "with (q,r) the true pair and perturbations of it; tightening: c = p/q with q in 1..12 or a boundary denominator, p "
+         "boundary-aimed, both strictness values, and integer c through declareAtom/initSolver for both orientations; "
+         "normalisation: 1..5 summands, coefficients = small or boundary integers times a common factor (so that the gcd step "
+         "fires), a quarter with rational coefficients (lcm step), constants integral / fractional / multiples of the factor ± 1; "
+         "difference logic: SafeInt operands and constants around ±2^31, ±2^53, ±2^62, ±2^63; QF_IDL scripts "
+         "x-y<=k1, y-x<=k2 with k1+k2 in {-2..1} around those boundaries. distinct = distinct case line",
 )
+
+DENS = list(range(1, 13)) + [2 ** 31 - 1, 2 ** 32 + 1, 10 ** 20 + 39]
+PMAX, PMIN = 2 ** 63 - 1, -2 ** 63
+SAMPLES = {}
+
+
+def fstr(q):
+    q = Fraction(q)
+    return str(q.numerator) if q.denominator == 1 else "%d/%d" % (q.numerator, q.denominator)
+
+
+def fparse(s):
+    return Fraction(s)
+
+
+def rand_rat(rng):
+    d = rng.choice(DENS) if rng.random() < 0.85 else rng.randint(1, 10 ** 6)
+    n = numgen.rand_int(rng)
+    if rng.random() < 0.3:   # just beside an integer
+        n = numgen.rand_int(rng) * d + rng.choice([-1, 0, 1])
+    return Fraction(n, d)
+
+
+def rand_i64(rng):
+    k = rng.random()
+    b = rng.choice([0, 1, 2 ** 31, 2 ** 32, 2 ** 53, 2 ** 62, 2 ** 63 - 1, 2 ** 63])
+    v = b + rng.randint(-3, 3) if k < 0.7 else rng.randint(-2 ** 63, 2 ** 63 - 1)
+    v = v if rng.random() < 0.5 else -v
+    return max(PMIN, min(PMAX, v))
+
+
+def gen_sum(rng):
+    n = rng.choice([1, 1, 2, 2, 2, 3, 3, 4, 5])
+    g = rng.choice([1, 1, 2, 3, 4, 6, 10, 2 ** 31, 2 ** 32 + 1, 10 ** 20])
+    cs = []
+    for _ in range(n):
+        a = rng.choice([1, -1, 2, -2, 3, -3, 5, 7, -9, 12]) if rng.random() < 0.7 else numgen.rand_int(rng)
+        if a == 0:
+            a = 1
+        cs.append(Fraction(a * g))
+    if rng.random() < 0.25:
+        cs = [a / rng.choice(DENS[:12]) for a in cs]
+    k = rng.random()
+    if k < 0.35:
+        c = Fraction(numgen.rand_int(rng))
+    elif k < 0.7:
+        c = Fraction(g * rng.randint(-20, 20) + rng.choice([-1, 0, 1]))
+    else:
+        c = rand_rat(rng)
+    return c, cs
+
+
+def eval_sum(cs, xs):
+    return sum(a * x for a, x in zip(cs, xs))
+
+
+def find_diff(rng, n, f, g):
+    """integer assignment on which the two predicates differ (search only)."""
+    for t in range(4000):
+        r = rng.choice([2, 5, 50, 10 ** 6, 2 ** 33])
+        xs = [rng.randint(-r, r) for _ in range(n)]
+        if f(xs) != g(xs):
+            return xs
+    return None
 
 
 def run(ctx):
-    exe, log = vlib.build_extracted("divmod")
-    if not exe:
+    exe_d, log = vlib.build_extracted("divmod")
+    if not exe_d:
         ctx.tie_broken("extraction-divmod", log)
         return
-    h, hlog = vlib.compile_harness("h_divmod")
-    if not h:
+    exe_i, log = vlib.build_extracted("intarith")
+    if not exe_i:
+        ctx.tie_broken("extraction-intarith", log)
+        return
+    h_d, hlog = vlib.compile_harness("h_divmod")
+    if not h_d:
         ctx.tie_broken("harness-h_divmod", hlog)
         return
+    h_i, hlog = vlib.compile_harness("h_intarith")
+    if not h_i:
+        ctx.tie_broken("harness-h_intarith", hlog)
+        return
+    rng = ctx.rng
     B = numgen.boundary_ints()
-    cases = []
+
+    # ------------------------------------------------------------------ div / mod folding
     if ctx.quick:
-        small = [b for b in B if abs(b) <= 2**32 + 1 or abs(b) in (2**63, 2**64, 10**20)]
+        small = [b for b in B if abs(b) <= 2 ** 32 + 1 or abs(b) in (2 ** 63, 2 ** 64, 10 ** 20)]
         cases = [(n, d) for n in small for d in small]
     else:
         cases = [(n, d) for n in B for d in B]
     nrand = 20000 if ctx.quick else 300000
     for _ in range(nrand):
-        cases.append((numgen.rand_int(ctx.rng), numgen.rand_int(ctx.rng)))
+        cases.append((numgen.rand_int(rng), numgen.rand_int(rng)))
     inp = "".join("%d %d\n" % c for c in cases)
-    rc1, out_m = vlib.sh(exe, input=inp, timeout=1200)
-    rc2, out_i = vlib.sh(h, input=inp, timeout=1200)
+    rc1, out_m = vlib.sh(exe_d, input=inp, timeout=1200)
+    rc2, out_i = vlib.sh(h_d, input=inp, timeout=1200)
     lm, li = out_m.split("\n"), out_i.split("\n")
     if rc1 != 0 or rc2 != 0 or len(lm) < len(cases) or len(li) < len(cases):
         ctx.tie_broken("divmod-correspondence-run", "model rc=%s impl rc=%s lines %d/%d/%d" % (rc1, rc2, len(lm), len(li), len(cases)))
         return
     for (n, d), m, i in zip(cases, lm, li):
-        ctx.case(key=(n, d), nontrivial=d not in (0, 1, -1), kind="d=0" if d == 0 else ("|d|=1" if abs(d) == 1 else ("d>0" if d > 0 else "d<0")),
-                 sample=dict(n=str(n), d=str(d), model=m, impl=i))
+        ctx.case(key=(n, d), nontrivial=d not in (0, 1, -1), kind="fold:d=0" if d == 0 else ("fold:|d|=1" if abs(d) == 1 else ("fold:d>0" if d > 0 else "fold:d<0")))
+        if d < -1 and n < 0 and "fold" not in SAMPLES:
+            SAMPLES["fold"] = dict(case="div/mod folding", n=str(n), d=str(d), model=m, impl=i)
         if m != i:
             ctx.tie_broken("divmod-correspondence", "n=%d d=%d model=%s impl=%s" % (n, d, m, i), dict(n=str(n), d=str(d)))
-            # property-level judgement: python's exact integers, SMT-LIB Euclidean semantics
             if d != 0:
                 r = n % abs(d)
                 q = (n - r) // d
                 if i != "%d %d" % (q, r):
                     ctx.violation("fold-divmod:%s" % ("d>0" if d > 0 else "d<0"),
                                   "constant folding of (div %d %d)/(mod ...) gives %s, SMT-LIB says %d %d" % (n, d, i, q, r),
-                                  dict(n=str(n), d=str(d), impl=i, expected="%d %d" % (q, r), how="harness/h_divmod.cc: echo 'n d' | build/harness/h_divmod"))
+                                  dict(n=str(n), d=str(d), impl=i, expected="%d %d" % (q, r), how="echo 'n d' | build/harness/h_divmod"))
             elif i != "exc exc":
                 ctx.violation("fold-divmod:d=0", "division by the constant 0 not rejected: %s" % i, dict(n=str(n), d="0", impl=i))
+
+    # ------------------------------------------------------------------ the other functions
+    lines = []   # (line, kind, nontrivial)
+
+    def add(line, kind, nontrivial=True):
+        lines.append((line, kind, nontrivial))
+
+    for p in sorted(glob.glob(os.path.join(vlib.VERIF, "corpus", "C27", "*.txt"))):
+        for l in open(p):
+            l = l.strip()
+            if l and not l.startswith("#"):
+                add(l, "corpus")
+    scale = 1 if ctx.quick else 12
+    # tightening
+    for b in B:
+        for q in range(1, 13):
+            for dn in (-1, 0, 1):
+                for s in (0, 1):
+                    if ctx.quick and abs(b) > 2 ** 32 + 1 and abs(b) not in (2 ** 63, 10 ** 20):
+                        continue
+                    add("T %s %d" % (fstr(Fraction(b * q + dn, q)), s), "tighten:boundary")
+    for _ in range(6000 * scale):
+        add("T %s %d" % (fstr(rand_rat(rng)), rng.randint(0, 1)), "tighten:random")
+    for b in B:
+        for dn in (-1, 0, 1):
+            for neg in (0, 1):
+                add("B %d %d" % (b + dn, neg), "addbound")
+    for _ in range(1500 * scale):
+        add("B %d %d" % (numgen.rand_int(rng), rng.randint(0, 1)), "addbound")
+    # normalisation
+    for _ in range(9000 * scale):
+        c, cs = gen_sum(rng)
+        rat = any(a.denominator != 1 for a in cs)
+        add("I %s %s" % (fstr(c), " ".join(fstr(a) for a in cs)), "ineq:rational-coeffs(API only)" if rat else "ineq", len(cs) > 0)
+    for _ in range(9000 * scale):
+        c, cs = gen_sum(rng)
+        rat = any(a.denominator != 1 for a in cs)
+        add("E %s %s" % (fstr(c), " ".join(fstr(a) for a in cs)), "eq:rational-coeffs(API only)" if rat else "eq", len(cs) > 0)
+    for _ in range(400):
+        add("S %s" % fstr(rand_rat(rng) or 1), "single-factor")
+    # difference logic
+    for b in [0, 1, 2 ** 31, 2 ** 32, 2 ** 53, 2 ** 54, 2 ** 62, 2 ** 63 - 1024, 2 ** 63 - 1, 2 ** 63, 2 ** 64, 10 ** 20, 10 ** 40]:
+        for dn in range(-3, 4):
+            for sg in (1, -1):
+                add("C %d" % (sg * (b + dn)), "dl-conv")
+    for _ in range(3000 * scale):
+        z = rand_i64(rng) if rng.random() < 0.8 else numgen.rand_int(rng)
+        add("C %d" % z, "dl-conv")
+    for _ in range(2000 * scale):
+        add("N %d" % rand_i64(rng), "dl-negate")
+    for _ in range(4000 * scale):
+        add("%s %d %d" % (rng.choice("AU"), rand_i64(rng), rand_i64(rng)), "safeint")
+    # div/mod elimination definitions
+    for _ in range(4000 * scale):
+        n, d = numgen.rand_int(rng), numgen.rand_int(rng)
+        if d == 0:
+            continue
+        r = n % abs(d)
+        q = (n - r) // d
+        k = rng.random()
+        if k < 0.45:
+            pass
+        elif k < 0.6:
+            q, r = q + 1, r - d          # still n = d*q + r, r out of range
+        elif k < 0.75:
+            q, r = q - 1, r + d
+        elif k < 0.85:
+            r = r + rng.choice([-1, 1])
+        elif k < 0.95:
+            q = q + rng.choice([-1, 1])
+        else:
+            q, r = numgen.rand_int(rng), numgen.rand_int(rng)
+        add("X %d %d %d %d" % (n, d, q, r), "divmod-def:|d|=1" if abs(d) == 1 else "divmod-def", abs(d) != 1)
+
+    inp = "".join(l + "\n" for l, _, _ in lines)
+    rc1, out_m = vlib.sh(exe_i, input=inp, timeout=2400)
+    rc2, out_i = vlib.sh(h_i, input=inp, timeout=2400)
+    lm, li = out_m.split("\n"), out_i.split("\n")
+    if rc1 != 0 or rc2 != 0 or len(lm) < len(lines) or len(li) < len(lines):
+        ctx.tie_broken("intarith-correspondence-run", "model rc=%s impl rc=%s lines %d/%d/%d; last impl output: %s" %
+                       (rc1, rc2, len(lm), len(li), len(lines), out_i[-300:]))
+        return
+
+    # which variant of the constant conversion does the tree have?  dl_conv (through double, refuted) or
+    # dl_conv_fixed (exact or rejected: the proposed repair).  Decided on one probe, then every case must
+    # agree with the chosen model variant.
+    probe = dict(zip([l for l, _, _ in lines], li))
+    conv_variant = "fixed" if probe.get("C %d" % (2 ** 53 + 1)) == str(2 ** 53 + 1) else "double"
+    ctx.note("constant conversion variant observed on the tree: " + ("dl_conv_fixed (exact or rejected)" if conv_variant == "fixed" else "dl_conv (through double)"))
+    clines = [l for l, _, _ in lines if l.startswith("C ")]
+    rc3, out_f = vlib.sh(exe_i, input="".join("CF" + l[1:] + "\n" for l in clines), timeout=600)
+    conv_fixed_model = dict(zip(clines, out_f.split("\n")))
+    if rc3 != 0 or len(out_f.split("\n")) < len(clines):
+        ctx.tie_broken("intarith-correspondence-run", "model run for dl_conv_fixed failed rc=%s" % rc3)
+        return
+    ub_skipped = 0
+    for (line, kind, nontriv), m, i in zip(lines, lm, li):
+        w = line.split()
+        op = w[0]
+        if op not in SAMPLES and rng.random() < 0.02:
+            SAMPLES[op] = dict(case=line, model=m, impl=i)
+        ctx.case(key=line, nontrivial=nontriv, kind=kind)
+        if i.startswith("exc"):
+            i_cmp = "none"
+        else:
+            i_cmp = i
+        ok = None
+        if op == "E":
+            alts = [a.strip() for a in m.split(";")]
+            if i_cmp in ("false", "true"):
+                ok = i_cmp in alts
+            else:
+                body, _, lead = i_cmp.rpartition(" lead")
+                ok = body in alts and lead == "+"
+        elif op == "C":
+            z = int(w[1])
+            mf = conv_fixed_model[line]
+            if conv_variant == "fixed":
+                ok = i_cmp == mf
+            elif m == "none":
+                ub_skipped += 1          # undefined behaviour in the C++ (out-of-range double -> ptrdiff_t)
+                ok = True
+            else:
+                ok = i_cmp == m
+            if PMIN <= z <= PMAX and i_cmp != str(z):
+                ctx.violation("dl-conv:double-rounding" if abs(z) < 2 ** 63 - 512 else "dl-conv:double-out-of-range",
+                              "Converter<SafeInt>::getValue(%d) = %s: the constant of an integer difference constraint is changed by the "
+                              "conversion through double" % (z, i), dict(z=str(z), impl=i, model=m, how="echo 'C %d' | build/harness/h_intarith" % z))
+        elif op == "N" and m == "none":
+            ub_skipped += 1
+            ok = True
+        else:
+            ok = (i_cmp == m)
+        if ok:
+            continue
+        ctx.tie_broken("intarith-correspondence:" + op, "%s model=%s impl=%s" % (line, m, i), dict(case=line))
+        # ---- property-level judgement of the disagreeing case, by exact arithmetic
+        try:
+            judge(ctx, rng, w, i_cmp)
+        except Exception as e:   # unparsable implementation output: stays a broken tie
+            ctx.note("could not judge %s / %s: %s" % (line, i, e))
+    ctx.note("cases skipped from comparison because the C++ is undefined there (out-of-range double->int, PTRDIFF_MAX+1): %d" % ub_skipped)
+
+    # ------------------------------------------------------------------ end to end: QF_IDL scripts predicted by the model
+    e2e(ctx, rng, exe_i, probe)
+
+
+def judge(ctx, rng, w, i):
+    op = w[0]
+    how = "echo '%s' | build/harness/h_intarith" % " ".join(w)
+    if op == "T":
+        c, strict = fparse(w[1]), w[2] == "1"
+        ub = (math.ceil(c) - 1) if strict else math.floor(c)     # largest integer v with v < c resp. v <= c
+        if i != "%d %d" % (ub, ub + 1):
+            ctx.violation("tighten:%s" % ("strict" if strict else "nonstrict"),
+                          "getBoundsValueForIntVar(%s, strict=%s) = {%s}; the integers v with v %s c are exactly v <= %d, the others v >= %d"
+                          % (w[1], strict, i, "<" if strict else "<=", ub, ub + 1), dict(case=" ".join(w), impl=i, how=how))
+    elif op == "B":
+        c, neg = int(w[1]), w[2] == "1"
+        exp = "UB %d LB %d" % (-c, -c + 1) if neg else "LB %d UB %d" % (c, c - 1)
+        if i != exp:
+            ctx.violation("addbound:%s" % ("negated" if neg else "plain"), "bounds stored for the atom %d <= %sx are %s, integer semantics gives %s"
+                          % (c, "-" if neg else "", i, exp), dict(case=" ".join(w), impl=i, how=how))
+    elif op in ("I", "E"):
+        c = fparse(w[1])
+        cs = [fparse(a) for a in w[2:]]
+        n = len(cs)
+        orig = (lambda xs: 0 <= eval_sum(cs, xs) + c) if op == "I" else (lambda xs: 0 == eval_sum(cs, xs) + c)
+        if i in ("true", "false"):
+            norm = lambda xs: i == "true"
+        else:
+            body = i.rpartition(" lead")[0] if " lead" in i else i
+            k, _, rest = body.partition("|")
+            k = fparse(k.strip())
+            cs2 = [fparse(a) for a in rest.split()]
+            norm = (lambda xs: k <= eval_sum(cs2, xs)) if op == "I" else (lambda xs: k == eval_sum(cs2, xs))
+        xs = find_diff(rng, n, orig, norm)
+        if xs is None and op == "I" and i not in ("true", "false"):
+            # aim at the boundary: solve for x0
+            for t in range(2000):
+                rest = [rng.randint(-50, 50) for _ in range(n - 1)]
+                x0 = -(eval_sum(cs[1:], rest) + c) / cs[0]
+                for cand in (math.floor(x0), math.ceil(x0), math.floor(x0) - 1, math.ceil(x0) + 1):
+                    if orig([cand] + rest) != norm([cand] + rest):
+                        xs = [cand] + rest
+                        break
+                if xs:
+                    break
+        if xs is not None:
+            ctx.violation("gcd-norm:%s" % ("ineq" if op == "I" else "eq"),
+                          "0 %s %s + %s is normalised to '%s' which differs at the integer assignment %s" %
+                          ("<=" if op == "I" else "=", " + ".join("%s*x%d" % (a, j) for j, a in enumerate(w[2:])), w[1], i, xs),
+                          dict(case=" ".join(w), impl=i, assignment=[str(x) for x in xs], how=how))
+    elif op == "S":
+        a = fparse(w[1])
+        if i != str((a > 0) - (a < 0)):
+            ctx.violation("gcd-norm:single-factor", "0 <= %s*x becomes 0 <= %s*x" % (w[1], i), dict(case=" ".join(w), impl=i, how=how))
+    elif op == "N":
+        c = int(w[1])
+        if c != PMAX and i != str(-(c + 1)):
+            ctx.violation("dl-negate", "negate(%d) = %s but not(x-y <= %d) is y-x <= %d" % (c, i, c, -(c + 1)), dict(case=" ".join(w), impl=i, how=how))
+    elif op in ("A", "U"):
+        a, b = int(w[1]), int(w[2])
+        r = a + b if op == "A" else a - b
+        exp = str(r) if PMIN <= r <= PMAX else "none"
+        if i != exp:
+            ctx.violation("safeint:%s" % ("add" if op == "A" else "sub"), "SafeInt %d %s %d = %s, expected %s" % (a, "+" if op == "A" else "-", b, i, exp),
+                          dict(case=" ".join(w), impl=i, how=how))
+    elif op == "X":
+        n, d, q, r = map(int, w[1:])
+        exp = "1" if (n == d * q + r and 0 <= r <= abs(d) - 1) else "0"
+        tq_r = n % abs(d)
+        tq = (n - tq_r) // d
+        if i != exp:
+            ctx.violation("divmod-def", "the definitions introduced for (div x %d),(mod x %d) evaluate to %s at x=%d, div=%d, mod=%d; "
+                          "SMT-LIB: div=%d mod=%d" % (d, d, i, n, q, r, tq, tq_r), dict(case=" ".join(w), impl=i, how=how))
+
+
+def lit(k):
+    return str(k) if k >= 0 else "(- %d)" % (-k)
+
+
+def e2e(ctx, rng, exe_i, probe):
+    """x - y <= k1  /\\  y - x <= k2  is satisfiable over the integers iff k1 + k2 >= 0."""
+    pairs = []
+    bases = [0, 7, 2 ** 31, 2 ** 32 + 5, 2 ** 53 - 1, 2 ** 53, 2 ** 53 + 1, 2 ** 54 + 2, 2 ** 60 + 12345, 2 ** 62, 2 ** 62 + 1, 2 ** 63 - 1, 2 ** 63, 2 ** 64 + 3, 10 ** 30]
+    for b in bases:
+        for s in (-2, -1, 0, 1):
+            pairs.append((b, -b + s))
+            pairs.append((-b + s, b))
+    n_extra = 10 if ctx.quick else 200
+    for _ in range(n_extra):
+        b = rng.choice([2 ** 53, 2 ** 55, 2 ** 58, 2 ** 61]) + rng.randint(0, 2 ** 20)
+        pairs.append((b, -b + rng.choice([-2, -1, 0, 1])))
+    # model prediction: conv both constants, add with SafeInt
+    q = "".join("C %d\nC %d\n" % p for p in pairs)
+    rc, out = vlib.sh(exe_i, input=q, timeout=300)
+    conv = out.split("\n")
+    wrong = 0
+    for idx, (k1, k2) in enumerate(pairs):
+        d1, d2 = conv[2 * idx], conv[2 * idx + 1]
+        truth = "sat" if k1 + k2 >= 0 else "unsat"
+        script = ("(set-logic QF_IDL)\n(declare-fun x () Int)\n(declare-fun y () Int)\n(assert (<= (- x y) %s))\n"
+                  "(assert (<= (- y x) %s))\n(check-sat)\n" % (lit(k1), lit(k2)))
+        rc, so, se = vlib.run_opensmt(script, timeout=30)
+        ans = so.strip().split("\n")[-1] if so.strip() else "(none rc=%s)" % rc
+        pred = None
+        if d1 != "none" and d2 != "none" and PMIN <= int(d1) + int(d2) <= PMAX:
+            pred = "sat" if int(d1) + int(d2) >= 0 else "unsat"
+        ctx.case(key="idl %d %d" % (k1, k2), nontrivial=True, kind="e2e-idl",
+                 )
+        if idx == 20:
+            SAMPLES["e2e"] = dict(script=script, answer=ans, truth=truth, model_prediction=pred)
+        if ans in ("sat", "unsat") and ans != truth:
+            wrong += 1
+            ctx.violation("idl-unsound:double-rounding" if max(abs(k1), abs(k2)) < 2 ** 63 - 512 else "idl-unsound:out-of-range",
+                          "QF_IDL  x-y <= %d, y-x <= %d  answered %s, is %s (constants pass through double in Converter<SafeInt>::getValue)"
+                          % (k1, k2, ans, truth), dict(script=script, answer=ans, expected=truth))
+        if pred is not None and ans in ("sat", "unsat") and ans != pred and ans != truth:
+            # wrong AND not explained by the model of the conversion: the tie is broken as well
+            ctx.tie_broken("e2e-idl-prediction", "k1=%d k2=%d model predicts %s, implementation %s, truth %s" % (k1, k2, pred, ans, truth),
+                           dict(script=script))
+    ctx.note("end-to-end QF_IDL scripts: %d, answered wrongly: %d" % (len(pairs), wrong))
+    ctx.samples = [SAMPLES[k] for k in ("fold", "T", "I", "E", "X", "e2e", "C", "B") if k in SAMPLES][:6]
